@@ -117,6 +117,8 @@ func convert(src string) (p parsed, err error) {
 var tagRe = regexp.MustCompile(`<[^>]*>`)
 
 // textOf is the text content of goldmark's HTML: tags removed, character references decoded.
+func stdUnescape(s string) string { return stdhtml.UnescapeString(s) }
+
 func textOf(html string) string { return stdhtml.UnescapeString(tagRe.ReplaceAllString(html, " ")) }
 
 // normWS is the white-space normalisation under which contents are compared: every run of
@@ -370,7 +372,7 @@ type findingDef struct {
 	id      string
 	minimal string
 	check   func(s string) (clause string, detail string) // on the real code; "" = holds
-	class   func(shrunk string, clause string) bool        // shrunk failing input belongs to this finding
+	class   func(shrunk string, clause string) bool       // shrunk failing input belongs to this finding
 }
 
 var reTabAfterBlank = regexp.MustCompile(`^a?\n{1,2}\ta$`)
@@ -711,5 +713,8 @@ func run(c *hx.Ctx) error {
 			}
 		}
 	}
-	return runE2E(c)
+	if err := runE2E(c); err != nil {
+		return err
+	}
+	return runHTMLMode(c)
 }
